@@ -101,6 +101,15 @@ def sc_estep(B, C, D, t, J):
     # statistics containers add field by field
     two = acc + acc
     o.equal("stats-add", two.nij, [2 * v for v in want_n])
+    o.equal("stats-add/A", two.nij_sigma_wij2, [[[2 * want_a[c][a][b] for b in range(t)] for a in range(t)] for c in range(C)])
+    three = iv.e_step(m, data)
+    three += acc
+    three += acc
+    o.equal("stats-iadd/N", three.nij, [3 * v for v in want_n])
+    o.equal("stats-iadd/A", three.nij_sigma_wij2, [[[3 * want_a[c][a][b] for b in range(t)] for a in range(t)] for c in range(C)])
+    o.equal("stats-iadd/B", three.fnorm_sigma_wij, [[[3 * want_f[c][d][a] for a in range(t)] for d in range(D)] for c in range(C)])
+    o.equal("stats-iadd/S", three.snormij, [[3 * want_s[c][d] for d in range(D)] for c in range(C)])
+    o.equal("stats-iadd-operand-unchanged", acc.nij, want_n)
     return o
 
 
